@@ -863,13 +863,9 @@ func (c *Ctx) errorsGate(instance string, f *Func, what string, effect func(Poin
 		}
 		// io.EOF is the designed end of a stream, not a failure of the step
 		nilE = unionEdges(nilE, g.EdgesImplying(func(a Atom) bool {
-			be, ok := ast.Unparen(a.E).(*ast.BinaryExpr)
-			if !ok || be.Op != token.EQL || !a.Val {
-				return false
-			}
 			isEOF := func(e ast.Expr) bool { return isPkgVar(f.Info(), e, "io", "EOF") }
 			isErr := func(e ast.Expr) bool { return objOf(f.Info(), e) == errObj }
-			return (isErr(be.X) && isEOF(be.Y)) || (isErr(be.Y) && isEOF(be.X))
+			return a.Val && isSentinelTest(f.Info(), a.E, isErr, isEOF)
 		}))
 		// phase 1: while the error value of this call is live, only the failure
 		// edges are open; phase 2: once the variable has been overwritten the
@@ -994,4 +990,19 @@ func usedInCondition(f *Func, s Site, obj types.Object) bool {
 		return false
 	})
 	return used
+}
+
+// isSentinelTest: e is `err == X` (either order) or `errors.Is(err, X)` for an
+// err accepted by isErr and a sentinel accepted by isX.
+func isSentinelTest(info *types.Info, e ast.Expr, isErr, isX func(ast.Expr) bool) bool {
+	switch x := ast.Unparen(e).(type) {
+	case *ast.BinaryExpr:
+		if x.Op != token.EQL {
+			return false
+		}
+		return (isErr(x.X) && isX(x.Y)) || (isErr(x.Y) && isX(x.X))
+	case *ast.CallExpr:
+		return len(x.Args) == 2 && matchCallee(info, x, Callee{"errors", "", "Is"}) && isErr(x.Args[0]) && isX(x.Args[1])
+	}
+	return false
 }
